@@ -594,7 +594,7 @@ def _reread(tree, how):
     d = _reread_dir()
     with warnings.catch_warnings():
         warnings.simplefilter('ignore')
-        text = TaxonomyTree(data=tree).to_str()
+        text = json.dumps(tree)          # written as it is: the reader has to validate what it reads
         if how == 'stats':
             p = os.path.join(d, f'stats_{os.getpid()}.h5')
             with h5py.File(p, 'w') as f:
@@ -611,17 +611,36 @@ def _reread(tree, how):
 
 
 def _gen_reread(rng, size):
-    t = gen_tree(rng, size + 2)
-    while not REF_ENV['ref_wf'](t):
+    import copy
+    import warnings
+    from cell_type_mapper.taxonomy.taxonomy_tree import TaxonomyTree
+    for _ in range(200):
         t = gen_tree(rng, size + 2)
-    return dict(tree=t, how=rng.choice(['stats', 'stats', 'json', 'str']))
+        if rng.random() < 0.4:
+            t = mutate_tree(rng, t)          # one-edit malformed variants: the readers must refuse them
+        try:
+            with warnings.catch_warnings():
+                warnings.simplefilter('ignore')
+                TaxonomyTree(data=copy.deepcopy(t))
+            ok = True
+        except RuntimeError:
+            ok = False
+        except Exception:      # noqa  (blobs outside the typing restriction of the validator's contract)
+            continue
+        try:
+            wf = bool(REF_ENV['ref_wf'](t))
+        except Exception:      # noqa  (no 'hierarchy' entry etc.: outside this contract)
+            continue
+        if ok == wf:
+            return dict(tree=t, how=rng.choice(['stats', 'stats', 'json', 'str']))
+    return dict(tree=gen_tree(rng, 2, n_levels=1), how='str')
 
 
 contract(
     M + 'from_precomputed_stats#reread',
     properties=['C10'], mode='bounded',
     native=dict(call=_reread, gen=_gen_reread, env=dict(REF_ENV, json=__import__('json')),
-                bound='random valid trees (<= 5 levels) written one after the other to the same HDF5 / JSON path and '
+                bound='random valid and one-edit malformed trees (<= 5 levels) written one after the other to the same HDF5 / JSON path and '
                       'read back (from_precomputed_stats, from_json_file, from_str)'),
     params=dict(tree='Opaque', how='Name'),
     returns='Opaque',
@@ -630,4 +649,6 @@ contract(
         "all(dict((n, list(result[l][n])) for n in result[l]) == dict((n, list(tree[l][n])) for n in tree[l]) "
         "for l in tree['hierarchy'])",
     ],
+    # a tree that is not a strict tree is refused by every reader, exactly as by the constructor
+    raises={'RuntimeError': ('iff', "not ref_wf(tree)")},
 )
